@@ -290,3 +290,29 @@ add("C15", "benign: sorted(set) into a list", "sqlglot/optimizer/pushdown_projec
 add("C15", "benign: generator toggle under try/finally", G,
     "    def sep(self, sep: str = \" \") -> str:\n",
     "    def _verif_ok(self, e: exp.Expr) -> str:\n        saved = self.pretty\n        self.pretty = False\n        try:\n            return self.sql(e)\n        finally:\n            self.pretty = saved\n\n    def sep(self, sep: str = \" \") -> str:\n", "silent")
+
+# ------------------------------------------------------------------------------- C12
+SERDE = "sqlglot/serde.py"
+add("C12", "rename wire key on the writer side only", SERDE,
+    "                payload[COMMENTS] = node.comments\n", "                payload[\"cm\"] = node.comments\n", "C12.a")
+add("C12", "load stops reading the type payload", SERDE,
+    "    expression._type = load(payload.get(TYPE))\n", "    expression._type = None\n", "C12.a")
+add("C12", "two wire keys share a string", SERDE, "META = \"m\"\n", "META = \"o\"\n", "C12.a")
+add("C12", "new slot without serde/copy support", CORE,
+    "        \"_meta\",\n        \"_hash\",\n    )\n\n    def __eq__",
+    "        \"_meta\",\n        \"_hash\",\n        \"_origin\",\n    )\n\n    def __eq__", "C12.b")
+add("C12", "__deepcopy__ skips _meta", CORE,
+    "            if node._meta is not None:\n                copy._meta = deepcopy(node._meta)\n", "", "C12.b")
+add("C12", "dump stops emitting comments", SERDE,
+    "            if node.comments:\n                payload[COMMENTS] = node.comments\n", "", "C12.a")
+add("C12", "revert serde fix (meta emitted verbatim)", SERDE,
+    "                payload[META] = {\n                    k: {EXPR: dump(v)} if isinstance(v, exp.Expr) else v\n                    for k, v in node._meta.items()\n                }\n",
+    "                payload[META] = node._meta\n", "C12.c")
+add("C12", "store a set in meta", "sqlglot/optimizer/qualify_tables.py",
+    "        db.meta[\"is_table\"] = True\n", "        db.meta[\"is_table\"] = True\n        db.meta[\"seen\"] = {\"a\", \"b\"}\n", "C12.c")
+add("C12", "pickle bypasses serde", CORE,
+    "        return (load, (dump(self),))\n", "        return (self.__class__, ())\n", "C12.d")
+add("C12", "benign: reorder slots", CORE,
+    "        \"_type\",\n        \"_meta\",\n        \"_hash\",\n    )\n\n    def __eq__", "        \"_meta\",\n        \"_type\",\n        \"_hash\",\n    )\n\n    def __eq__", "silent")
+add("C12", "benign: store a str in meta", "sqlglot/optimizer/qualify_tables.py",
+    "        db.meta[\"is_table\"] = True\n", "        db.meta[\"is_table\"] = True\n        db.meta[\"origin\"] = \"qualify\"\n", "silent")
